@@ -38,11 +38,11 @@ kf("C01", "C01-switch-all-break-unreachable", "a switch whose every clause ends 
 kf("C03", "C03-clz-ctz", "countLeadingZeros/countTrailingZeros are emitted as bare firstbithigh/firstbitlow (clz(1)=0, ctz(0)=0xFFFFFFFF instead of 32)",
    ["C03|F1/call/countLeadingZeros/*|*|mismatch", "C03|F1/call/countTrailingZeros/*|*|mismatch"])
 kf("C03", "C03-transpose-type", "`let t = transpose(m)` for a non-square matrix declares t with the argument's type (floatCxR instead of floatRxC): a type error in HLSL",
-   ["C03|F1/call/transpose/*|*|malformed-output"])
+   ["C03|F1/call/transpose/*|*|malformed-output*"])
 kf("C03", "C03-sign-int", "sign(f32) result is stored through asuint(sign(x)); HLSL sign() returns int, so -1.0 is written as 0xFFFFFFFF instead of 0xBF800000",
    ["C03|F1/call/sign/*f32*|*|mismatch"])
 kf("C03", "C03-inverse-hyperbolic", "asinh/acosh/atanh are emitted as calls to functions HLSL does not have (undeclared identifier)",
-   ["C03|F1/call/asinh/*|*|malformed-output", "C03|F1/call/acosh/*|*|malformed-output", "C03|F1/call/atanh/*|*|malformed-output"])
+   ["C03|F1/call/asinh/*|*|malformed-output*", "C03|F1/call/acosh/*|*|malformed-output*", "C03|F1/call/atanh/*|*|malformed-output*"])
 
 # ---------------------------------------------------------------- C04 (MSL semantics)
 kf("C04", "C04-round-ties", "round() is emitted as metal::round (ties away from zero); WGSL requires ties-to-even (metal::rint)",
@@ -54,11 +54,11 @@ kf("C04", "C04-int-dot-overflow", "dot() on i32 vectors is emitted as plain `a.x
 
 # ---------------------------------------------------------------- C05 (GLSL semantics)
 kf("C05", "C05-vector-select-ternary", "select() with a vector condition is emitted as `bvec ? a : b`; the ?: condition must be a scalar bool in GLSL (invalid at every version)",
-   ["C05|F1/call/select/*|*|malformed-output"])
+   ["C05|F1/call/select/*|*|malformed-output*"])
 kf("C05", "C05-clz-ctz", "countTrailingZeros is emitted as findLSB (ctz(0) = -1 instead of 32) and countLeadingZeros(i32) as 31 - findMSB(x) (wrong for negative x); for u32 both are int expressions assigned to uint (a type error in ES)",
    ["C05|F1/call/countLeadingZeros/*|*|m*", "C05|F1/call/countTrailingZeros/*|*|m*"])
 kf("C05", "C05-abs-unsigned", "abs(u32) is emitted as abs(uint), which GLSL does not define (type error)",
-   ["C05|F1/call/abs/*u32*|*|malformed-output"])
+   ["C05|F1/call/abs/*u32*|*|malformed-output*"])
 
 # ---------------------------------------------------------------- C10 (robustness)
 kf("C10", "C10-swizzle-chain-exponential", "a chained swizzle `v.xyzw.xyzw...` makes lowering time grow exponentially: 64 links (under 400 bytes of source) exceed the CPU cap",
@@ -185,6 +185,21 @@ kf("C11", "C11-call-arg-type-unchecked", "a user-function call whose argument ha
    ["C11|call-arg-type|accepted|*"])
 kf("C11", "C11-negative-array-size", "`array<T, -1>` is accepted in an alias or struct member (a non-positive size is only diagnosed for 0)",
    ["C11|array-size-negative|accepted|*"])
+
+# ---------------------------------------------------------------- C07 (memory layout)
+kf("C07", "C07-inner-struct-align-attribute", "the alignment of a struct whose member carries @align(n) is not propagated to the enclosing struct/array: `struct I0 { @align(16) m0: u32 } struct S0 { m0: u32, m1: I0, m2: u32 }` places m1 at offset 4 (span 24) where WGSL has offset 16 (size 48); wrong in the IR, in SPIR-V Offset decorations and in every backend's addressing",
+   ["C07|ir-layout|*|F3/struct/{u32,I0{*@align(*)},u32}", "C07|spirv-decorations|*|F3/struct/{u32,I0{*@align(*)},u32}", "C07|spirv|F3/struct/{u32,I0{*@align(*)},u32}|*|mismatch",
+    "C07|msl|F3/struct/{u32,I0{*@align(*)},u32}|*|mismatch", "C07|hlsl|F3/struct/{u32,I0{*@align(*)},u32}|*|mismatch", "C07|glsl|F3/struct/{u32,I0{*@align(*)},u32}|*|mismatch", "C07|glsl|F3/array2/I0{*@align(*)}|*|mismatch"])
+kf("C07", "C07-glsl-align-size-ignored", "the GLSL backend ignores @align and @size: members are declared back to back in std430/std140 blocks, so every following member is addressed at the wrong offset",
+   ["C07|glsl|F3/struct/*@align(*|*|mismatch", "C07|glsl|F3/struct/*@size(*|*|mismatch", "C07|glsl|F3/struct/*@align(*|*|trap:oob-read", "C07|glsl|F3/struct/*@size(*|*|trap:oob-read"])
+kf("C07", "C07-glsl-std140-matCx2", "matCx2 values in a uniform (std140) block get column stride 16 where WGSL has 8: later columns/members are read from the wrong bytes (beyond the buffer for the last ones)",
+   ["C07|glsl|F3/*x2<f32>*|*|trap:oob-read", "C07|glsl|F3/*x2<f32>*|*|mismatch"])
+kf("C07", "C07-hlsl-missing-constructor-helper", "loading an array of structs (or array of arrays/matrices) from a storage buffer calls ConstructI0_/Constructarray2_* helper functions that are never emitted",
+   ["C07|hlsl|F3/*|*|malformed-output:call of undeclared function \"Construct*"])
+kf("C07", "C07-hlsl-uniform-matCx2-in-nested-struct", "a matCx2 member of a struct nested in a uniform struct is read through GetMat<m>On<Struct> helpers that are never emitted; arrays of matCx2 in uniform space index a split matrix value",
+   ["C07|hlsl|F3/*|*|malformed-output:call of undeclared function \"GetMat*", "C07|hlsl|F3/*|*|malformed-output:indexing a value of type __mat*", "C07|hlsl|F3/*|*|malformed-output:initialiser: cannot convert __mat*"])
+kf("C07", "C07-hlsl-private-array-declaration", "array-typed declarations are spelled with the dimension after the type name (`static T[2] name`, `float3[2] _value2[2]` for private/workgroup arrays and for temporaries of array-of-array stores), which is not HLSL",
+   ["C07|hlsl|F3/*|*|malformed-output:array dimension after type name*", "C07|hlsl|F3/array2/array<*|*|malformed-output:type name \"float*\" used as a value"])
 
 json.dump(K, open("known_findings.json", "w"), indent=1)
 print(len(K), "entries")
